@@ -601,6 +601,23 @@ Proof.
   rewrite Z.pow_neg_r in H by lia. lia.
 Qed.
 
+(* main path: no precondition on nd at all, as long as no early exit is taken *)
+Theorem nearest_pos_correct_main : forall m e10 nd, 0 < m ->
+  (310 <? e10 + nd) = false -> (e10 + nd <? -330) = false ->
+  match nearest_pos m e10 nd with
+  | FBits b => 0 <= b < INF64 /\ is_rne64 (dec_num m e10) (dec_den e10) b
+  | FRange => ovf64 * dec_den e10 <= dec_num m e10
+  end.
+Proof.
+  intros m e10 nd Hm X1 X2. destruct (dec_pos m e10 Hm) as [HN HD].
+  rewrite (nearest_pos_unfold m e10 nd ltac:(lia) X1 X2). cbv zeta.
+  destruct (nearest_gen_rne64 _ _ HN HD) as (B0 & O1 & O2). cbv zeta in B0, O1, O2.
+  destruct (INF64 <=? nearest_gen 52 (-1022) (dec_num m e10) (dec_den e10)) eqn:C.
+  - apply O1. lia.
+  - split; [lia|]. apply O2. lia.
+Qed.
+Print Assumptions nearest_pos_correct_main.
+
 Theorem nearest_pos_correct : forall m e10 nd, 0 < m -> 10 ^ (nd - 1) <= m < 10 ^ nd ->
   match nearest_pos m e10 nd with
   | FBits b => 0 <= b < INF64 /\ is_rne64 (dec_num m e10) (dec_den e10) b
@@ -652,11 +669,7 @@ Proof.
       unfold nearer_even, dist. change (0 + 1) with 1.
       change (fl_int 52 0) with 0. change (fl_int 52 1) with 1. fold K. split; [lia|].
       intros _ _. reflexivity. }
-  rewrite (nearest_pos_unfold m e10 nd ltac:(lia) X1 X2). cbv zeta.
-  destruct (nearest_gen_rne64 _ _ HN HD) as (B0 & O1 & O2). cbv zeta in B0, O1, O2.
-  destruct (INF64 <=? nearest_gen 52 (-1022) (dec_num m e10) (dec_den e10)) eqn:C.
-  - apply O1. lia.
-  - split; [lia|]. apply O2. lia.
+  apply nearest_pos_correct_main; assumption.
 Qed.
 Print Assumptions nearest_pos_correct.
 
@@ -707,23 +720,31 @@ Print Assumptions nearest_correct.
 Lemma ovf64_gt_1e25 : 10 ^ 25 < ovf64.
 Proof. vm_compute. reflexivity. Qed.
 
-(* Go's float64(i): correctly rounded, never out of range *)
-Theorem int_to_f64_correct : forall z, Z.abs z < 10 ^ 25 ->
+Lemma ndigits_fuel_bound : forall fuel m, 0 <= ndigits_fuel fuel m <= Z.of_nat fuel.
+Proof.
+  induction fuel as [|f IH]; intros m; cbn [ndigits_fuel]; [lia|].
+  destruct (m <? 10); [lia|]. specialize (IH (m / 10)). lia.
+Qed.
+
+(* Go's float64(i): correctly rounded, never out of range.  Holds for every integer below
+   2^1024 - 2^970 in magnitude (the 25-digit fuel of ndigits_fuel is irrelevant: only the
+   early exits of nearest_pos look at the digit count, and they are not taken for e10 = 0). *)
+Theorem int_to_f64_correct : forall z, Z.abs z < ovf64 ->
   exists b0, int_to_f64 z = (if z <? 0 then b0 + SIGN64 else b0) /\ 0 <= b0 < INF64 /\
              (z = 0 -> b0 = 0) /\ (z <> 0 -> is_rne64 (Z.abs z) 1 b0).
 Proof.
-  intros z Hz. unfold int_to_f64.
-  pose proof (nearest_correct (z <? 0) (Z.abs z) 0 (ndigits_fuel 25 (Z.abs z)) ltac:(lia)) as H.
-  assert (P : 0 < Z.abs z -> 10 ^ (ndigits_fuel 25 (Z.abs z) - 1) <= Z.abs z < 10 ^ ndigits_fuel 25 (Z.abs z)).
-  { intros P0. apply ndigits_fuel_spec. change (Z.of_nat 25) with 25. split; [exact P0|exact Hz]. }
-  specialize (H P).
-  assert (E1 : dec_num (Z.abs z) 0 = Z.abs z).
-  { unfold dec_num. change (0 <=? 0) with true. cbv iota. change (10 ^ 0) with 1. lia. }
-  change (dec_den 0) with 1 in H. rewrite E1 in H.
-  destruct (nearest (z <? 0) (Z.abs z) 0 (ndigits_fuel 25 (Z.abs z))) as [b|].
-  - destruct H as (b0 & Hb & Hr & H0 & Hp). exists b0. split; [exact Hb|]. split; [exact Hr|].
-    split; [intros; apply H0; lia|intros; apply Hp; lia].
-  - exfalso. pose proof ovf64_gt_1e25. lia.
+  intros z Hz. unfold int_to_f64, nearest.
+  destruct (Z.eq_dec z 0) as [->|N].
+  - exists 0. split; [reflexivity|]. split; [unfold INF64; lia|]. split; [reflexivity|lia].
+  - pose proof (ndigits_fuel_bound 25 (Z.abs z)) as B. change (Z.of_nat 25) with 25 in B.
+    pose proof (nearest_pos_correct_main (Z.abs z) 0 (ndigits_fuel 25 (Z.abs z))
+                  ltac:(lia) ltac:(lia) ltac:(lia)) as H.
+    assert (E1 : dec_num (Z.abs z) 0 = Z.abs z).
+    { unfold dec_num. change (0 <=? 0) with true. cbv iota. change (10 ^ 0) with 1. lia. }
+    change (dec_den 0) with 1 in H. rewrite E1 in H.
+    destruct (nearest_pos (Z.abs z) 0 (ndigits_fuel 25 (Z.abs z))) as [b|].
+    + destruct H as [Hr Hp]. exists b. split; [reflexivity|]. split; [exact Hr|]. split; [lia|auto].
+    + exfalso. lia.
 Qed.
 Print Assumptions int_to_f64_correct.
 
@@ -733,8 +754,13 @@ Corollary int_to_f64_correct_64 : forall z, Z.abs z < 2 ^ 64 ->
              (z = 0 -> b0 = 0) /\ (z <> 0 -> is_rne64 (Z.abs z) 1 b0).
 Proof.
   intros z Hz. apply int_to_f64_correct.
-  assert (2 ^ 64 < 10 ^ 25) by (vm_compute; reflexivity). lia.
+  assert (2 ^ 64 < ovf64) by (vm_compute; reflexivity). lia.
 Qed.
+
+(* the bound is sharp: at 2^1024 - 2^970 the model answers 0 (FRange is mapped to 0); no Go
+   integer type reaches that far *)
+Example int_to_f64_beyond_range : int_to_f64 ovf64 = 0.
+Proof. vm_compute. reflexivity. Qed.
 
 (* worked examples (bit patterns cross-checked against Go / C strtod) *)
 Example ex_0_1 : nearest_pos 1 (-1) 1 = FBits 4591870180066957722.          (* 0x3FB999999999999A *)
@@ -753,5 +779,671 @@ Example ex_2p53_1 : nearest_pos 9007199254740993 0 16 = FBits 484587319905065369
 Proof. vm_compute. reflexivity. Qed.
 Example ex_int_2p53_1 : int_to_f64 9007199254740993 = 4845873199050653696.
 Proof. vm_compute. reflexivity. Qed.
-Example ex_int_neg : int_to_f64 (-9007199254740995) = 14069245235905429506.   (* -(2^53+4): tie to even, upwards *)
+Example ex_int_neg : int_to_f64 (-9007199254740995) = 14069245235905429506.   (* -(2^53+3): tie, to even = -(2^53+4) *)
 Proof. vm_compute. reflexivity. Qed.
+
+(* the specification determines the result *)
+Theorem is_rne64_unique : forall num den b1 b2, 0 < den ->
+  is_rne64 num den b1 -> is_rne64 num den b2 -> b1 = b2.
+Proof.
+  intros num den b1 b2 Hd [[-> O1]|(R1 & N1 & G1)] [[-> O2]|(R2 & N2 & G2)]; try lia.
+  apply (nearest_unique 52 1074 num den (INF64 - 1)); try lia;
+    intros b' Hb'; [apply G1|apply G2]; lia.
+Qed.
+
+(* strict monotonicity of the binary64 value in the bit pattern (justifies reading
+   "nearest among all finite patterns" as "between the two neighbours") *)
+Theorem f64_value_mono : forall b b', 0 <= b -> b < b' -> fl_int 52 b < fl_int 52 b'.
+Proof. intros. apply fl_int_mono; lia. Qed.
+
+(* ====================================================================== *)
+(* 6. binary32                                                             *)
+(* ====================================================================== *)
+
+Definition INF32 : Z := 2139095040.            (* 0x7F800000 *)
+Definition SIGN32 : Z := 2147483648.           (* 2^31 *)
+
+Definition f32_value (b : Z) : Z * Z := (fl_mant 23 b, Z.max (fl_e 23 b) 1 - 150).
+
+Lemma f32_value_int : forall b,
+  fl_int 23 b = fst (f32_value b) * 2 ^ (snd (f32_value b) + 149).
+Proof. intros b. unfold fl_int, f32_value. cbn [fst snd]. f_equal. f_equal. lia. Qed.
+
+(* 2^128 - 2^103: the midpoint between the largest finite float32 and 2^128 *)
+Definition ovf32 : Z := 2 ^ 128 - 2 ^ 103.
+
+Definition is_rne32 (num den b : Z) : Prop :=
+  (b = INF32 /\ ovf32 * den <= num) \/
+  (0 <= b < INF32 /\ num < ovf32 * den /\
+   forall b', 0 <= b' < INF32 -> nearer_even 23 149 num den b b').
+
+Theorem is_rne32_unique : forall num den b1 b2, 0 < den ->
+  is_rne32 num den b1 -> is_rne32 num den b2 -> b1 = b2.
+Proof.
+  intros num den b1 b2 Hd [[-> O1]|(R1 & N1 & G1)] [[-> O2]|(R2 & N2 & G2)]; try lia.
+  apply (nearest_unique 23 149 num den (INF32 - 1)); try lia;
+    intros b' Hb'; [apply G1|apply G2]; lia.
+Qed.
+
+Lemma ovf32_mid : fl_int 23 (INF32 - 1) + fl_int 23 INF32 = 2 ^ 149 * (2 * ovf32).
+Proof. vm_compute. reflexivity. Qed.
+
+Lemma nearest_f32_pos_unfold : forall num den,
+  nearest_f32_pos num den =
+  let b := nearest_gen 23 (-126) num den in if INF32 <=? b then INF32 else b.
+Proof.
+  intros num den. unfold nearest_f32_pos, nearest_gen, floor_log2, lt_pow2b, sc_num, sc_den.
+  cbv zeta.
+  set (e2 := if (if 0 <=? Z.log2 num - Z.log2 den then num <? den * 2 ^ (Z.log2 num - Z.log2 den)
+               else num * 2 ^ (- (Z.log2 num - Z.log2 den)) <? den)
+             then Z.log2 num - Z.log2 den - 1 else Z.log2 num - Z.log2 den).
+  change (2 ^ 23) with 8388608.
+  replace (Z.max e2 (-126) - -126) with (Z.max e2 (-126) + 126) by lia.
+  destruct (0 <=? 23 - Z.max e2 (-126)); reflexivity.
+Qed.
+
+Theorem nearest_f32_pos_correct : forall num den, 0 < num -> 0 < den ->
+  is_rne32 num den (nearest_f32_pos num den).
+Proof.
+  intros num den Hn Hd. rewrite nearest_f32_pos_unfold. cbv zeta.
+  destruct (nearest_gen_global 23 (-126) num den ltac:(lia) ltac:(lia) Hn Hd) as [B0 G].
+  change (23 - -126) with 149 in G. cbv zeta in B0, G.
+  set (b := nearest_gen 23 (-126) num den) in *.
+  destruct (global_overflow 23 149 num den b INF32 ltac:(lia) Hd B0 ltac:(unfold INF32; lia)
+              eq_refl G) as [O1 O2].
+  rewrite ovf32_mid in O1, O2.
+  pose proof (pow2_pos 149 ltac:(lia)) as HK. set (K := 2 ^ 149) in *.
+  destruct (INF32 <=? b) eqn:C.
+  - left. split; [reflexivity|]. specialize (O1 ltac:(lia)).
+    apply (Z.mul_le_mono_pos_l _ _ (2 * K)); lia.
+  - right. specialize (O2 ltac:(lia)). split; [lia|]. split.
+    + apply (Z.mul_lt_mono_pos_l (2 * K)); lia.
+    + intros b' Hb'. apply G. lia.
+Qed.
+Print Assumptions nearest_f32_pos_correct.
+
+(* ---------- bit operations as arithmetic --------------------------------- *)
+
+Ltac dlia := Z.div_mod_to_equations; lia.
+
+Lemma land_shifted_small : forall a c k, 0 <= k -> 0 <= c < 2 ^ k -> Z.land (a * 2 ^ k) c = 0.
+Proof.
+  intros a c k Hk Hc. apply Z.bits_inj'. intros n Hn.
+  rewrite Z.land_spec, Z.bits_0.
+  destruct (Z_lt_le_dec n k) as [L|L].
+  - rewrite Z.mul_pow2_bits_low by lia. reflexivity.
+  - assert (Z.testbit c n = false).
+    { destruct (Z.eq_dec c 0) as [->|N]; [apply Z.bits_0|].
+      apply Z.bits_above_log2; [lia|].
+      assert (Z.log2 c < k) by (apply Z.log2_lt_pow2; lia). lia. }
+    rewrite H. apply andb_false_r.
+Qed.
+
+Lemma lor_disjoint_add : forall a c k, 0 <= k -> 0 <= c < 2 ^ k ->
+  Z.lor (a * 2 ^ k) c = a * 2 ^ k + c.
+Proof.
+  intros a c k Hk Hc. pose proof (land_shifted_small a c k Hk Hc) as H.
+  rewrite <- Z.lxor_lor by exact H. symmetry. apply Z.add_nocarry_lxor. exact H.
+Qed.
+
+(* setting bit 22 in a 23-bit field *)
+Lemma lor_bit22 : forall x, 0 <= x < 8388608 -> Z.lor 4194304 x = 4194304 + x mod 4194304.
+Proof.
+  intros x Hx. destruct (Z_lt_le_dec x 4194304) as [L|L].
+  - change 4194304 with (1 * 2 ^ 22) at 1. rewrite lor_disjoint_add by (change (2 ^ 22) with 4194304; lia).
+    rewrite Z.mod_small by lia. reflexivity.
+  - assert (P22 : 2 ^ 22 = 4194304) by reflexivity.
+    assert (E : Z.lor (1 * 2 ^ 22) (x - 4194304) = x) by (rewrite lor_disjoint_add; lia).
+    transitivity (Z.lor (1 * 2 ^ 22) (Z.lor (1 * 2 ^ 22) (x - 4194304))).
+    { rewrite E. reflexivity. }
+    rewrite Z.lor_assoc, Z.lor_diag, E. clear E P22. dlia.
+Qed.
+
+(* a dyadic (mantissa, exponent) as a fraction, the way the models form it *)
+Definition dy_num (v : Z * Z) : Z := if 0 <=? snd v then fst v * 2 ^ snd v else fst v.
+Definition dy_den (v : Z * Z) : Z := if 0 <=? snd v then 1 else 2 ^ (- snd v).
+
+Lemma dy_den_pos : forall v, 0 < dy_den v.
+Proof. intros v. unfold dy_den. destruct (0 <=? snd v) eqn:S; [lia|apply pow2_pos; lia]. Qed.
+
+(* that fraction is the value: dy_num / dy_den = fl_int 52 b / 2^1074 *)
+Lemma dy_frac_int64 : forall b,
+  dy_num (f64_value b) * 2 ^ 1074 = fl_int 52 b * dy_den (f64_value b).
+Proof.
+  intros b. rewrite f64_value_int. unfold dy_num, dy_den, f64_value. cbn [fst snd].
+  set (mant := fl_mant 52 b). set (ex := Z.max (fl_e 52 b) 1 - 1075).
+  assert (-1074 <= ex) by lia.
+  destruct (0 <=? ex) eqn:S.
+  - rewrite Z.pow_add_r by lia. lia.
+  - replace 1074 with ((ex + 1074) + (- ex)) at 1 by lia. rewrite Z.pow_add_r by lia. lia.
+Qed.
+
+Lemma fl_mant_pos : forall p b, 0 < p -> 0 < b -> 0 < fl_mant p b.
+Proof.
+  intros p b Hp Hb. unfold fl_mant, fl_e. pose proof (pow2_pos p ltac:(lia)) as HP.
+  pose proof (Z.div_mod b (2 ^ p) ltac:(lia)). pose proof (Z.mod_pos_bound b (2 ^ p) HP).
+  destruct (b / 2 ^ p =? 0) eqn:E; lia.
+Qed.
+
+Lemma dy_num_pos64 : forall b, 0 < b -> 0 < dy_num (f64_value b).
+Proof.
+  intros b Hb. unfold dy_num, f64_value. cbn [fst snd].
+  pose proof (fl_mant_pos 52 b ltac:(lia) Hb).
+  destruct (0 <=? Z.max (fl_e 52 b) 1 - 1075) eqn:S; [|lia].
+  apply Z.mul_pos_pos; [lia|apply pow2_pos; lia].
+Qed.
+
+(* ---------- float64 -> float32 ------------------------------------------- *)
+
+Theorem f64_to_f32_correct : forall b, 0 <= b < 2 ^ 64 ->
+  let s := b / 2 ^ 63 in
+  let b0 := b mod 2 ^ 63 in
+  (b0 < INF64 ->                                   (* finite: correctly rounded, sign kept *)
+     exists r, f64_to_f32 b = s * 2 ^ 31 + r /\ 0 <= r <= INF32 /\
+               (b0 = 0 -> r = 0) /\
+               (0 < b0 -> is_rne32 (dy_num (f64_value b0)) (dy_den (f64_value b0)) r)) /\
+  (b0 = INF64 -> f64_to_f32 b = s * 2 ^ 31 + INF32) /\
+  (INF64 < b0 ->                                   (* NaN: quiet bit set, top payload bits kept *)
+     f64_to_f32 b = s * 2 ^ 31 + INF32 + 4194304 + (b0 mod 2 ^ 52 / 2 ^ 29) mod 4194304).
+Proof.
+  intros b Hb. cbv zeta. unfold f64_to_f32.
+  rewrite !Z.shiftr_div_pow2, Z.shiftl_mul_pow2 by lia.
+  change 2047 with (Z.ones 11). change 4503599627370495 with (Z.ones 52).
+  rewrite !Z.land_ones by lia. change (Z.ones 11) with 2047.
+  change (2 ^ 64) with 18446744073709551616 in Hb.
+  change (2 ^ 63) with 9223372036854775808. change (2 ^ 52) with 4503599627370496.
+  change (2 ^ 11) with 2048. change (2 ^ 31) with 2147483648. change (2 ^ 29) with 536870912.
+  unfold INF64, INF32.
+  set (s := b / 9223372036854775808). set (b0 := b mod 9223372036854775808).
+  assert (Hs : 0 <= s <= 1) by (unfold s; dlia).
+  assert (Hb0 : 0 <= b0 < 9223372036854775808) by (unfold b0; dlia).
+  assert (He : (b / 4503599627370496) mod 2048 = b0 / 4503599627370496) by (unfold b0; dlia).
+  assert (Hm : b mod 4503599627370496 = b0 mod 4503599627370496) by (unfold b0; dlia).
+  rewrite He, Hm. clear He Hm.
+  set (e := b0 / 4503599627370496). set (m := b0 mod 4503599627370496).
+  assert (Hem : b0 = e * 4503599627370496 + m /\ 0 <= m < 4503599627370496 /\ 0 <= e < 2048)
+    by (unfold e, m; dlia).
+  assert (LOR : forall r, 0 <= r < 2147483648 -> Z.lor (s * 2147483648) r = s * 2147483648 + r).
+  { intros r Hr. change 2147483648 with (2 ^ 31). apply lor_disjoint_add; lia. }
+  split; [|split].
+  - intros Fin. destruct (e =? 2047) eqn:E1; [lia|].
+    destruct ((e =? 0) && (m =? 0)) eqn:E2.
+    + exists 0. split; [lia|]. split; [lia|]. split; [reflexivity|]. lia.
+    + assert (Hpos : 0 < b0) by lia.
+      assert (V : f64_value b0 = (if e =? 0 then m else m + 4503599627370496,
+                                  (if e =? 0 then 1 else e) - 1075)).
+      { unfold f64_value, fl_mant, fl_e. change (2 ^ 52) with 4503599627370496.
+        fold e. fold m. f_equal. destruct (e =? 0) eqn:E0; lia. }
+      set (mant := if e =? 0 then m else m + 4503599627370496) in *.
+      set (ex := (if e =? 0 then 1 else e) - 1075) in *.
+      pose proof (dy_num_pos64 b0 Hpos) as NP. pose proof (dy_den_pos (f64_value b0)) as DP.
+      rewrite V in *. unfold dy_num, dy_den in *. cbn [fst snd] in *.
+      set (num := if 0 <=? ex then mant * 2 ^ ex else mant) in *.
+      set (den := if 0 <=? ex then 1 else 2 ^ (- ex)) in *.
+      pose proof (nearest_f32_pos_correct num den NP DP) as R.
+      exists (nearest_f32_pos num den).
+      assert (Rr : 0 <= nearest_f32_pos num den <= 2139095040).
+      { destruct R as [[-> _]|[R _]]; unfold INF32 in *; lia. }
+      split; [apply LOR; lia|]. split; [exact Rr|]. split; [lia|]. intros _. exact R.
+  - intros Inf. assert (e = 2047 /\ m = 0) as [-> ->] by lia.
+    change (2047 =? 2047) with true. change (0 =? 0) with true. cbv iota.
+    apply LOR. lia.
+  - intros Nan. assert (e = 2047 /\ m <> 0) as [-> Hm0] by lia.
+    change (2047 =? 2047) with true. cbv iota. destruct (m =? 0) eqn:M; [lia|].
+    rewrite lor_bit22 by dlia.
+    change 2139095040 with (255 * 2 ^ 23) at 1.
+    rewrite lor_disjoint_add by (change (2 ^ 23) with 8388608; dlia).
+    rewrite LOR by (change (255 * 2 ^ 23) with 2139095040; dlia).
+    change (255 * 2 ^ 23) with 2139095040. fold m. lia.
+Qed.
+Print Assumptions f64_to_f32_correct.
+
+Lemma f64_to_f32_range : forall b, 0 <= b < 2 ^ 64 -> 0 <= f64_to_f32 b < 2 ^ 32.
+Proof.
+  intros b Hb. destruct (f64_to_f32_correct b Hb) as (F & I & N). cbv zeta in F, I, N.
+  change (2 ^ 64) with 18446744073709551616 in Hb.
+  change (2 ^ 63) with 9223372036854775808 in *. change (2 ^ 31) with 2147483648 in *.
+  change (2 ^ 32) with 4294967296. unfold INF64, INF32 in *.
+  assert (Hs : 0 <= b / 9223372036854775808 <= 1) by dlia.
+  set (s := b / 9223372036854775808) in *.
+  destruct (Z.lt_trichotomy (b mod 9223372036854775808) 9218868437227405312) as [C|[C|C]].
+  - destruct (F C) as (r & -> & Hr & _). lia.
+  - rewrite (I C). lia.
+  - rewrite (N ltac:(lia)).
+    pose proof (Z.mod_pos_bound (b mod 9223372036854775808 mod 2 ^ 52 / 2 ^ 29) 4194304 ltac:(lia)). lia.
+Qed.
+
+(* the relation depends only on the rational num/den *)
+Lemma is_rne32_frac : forall num den num' den' b, 0 < den -> 0 < den' ->
+  num * den' = num' * den -> is_rne32 num den b -> is_rne32 num' den' b.
+Proof.
+  intros num den num' den' b Hd Hd' E [[-> O]|(R & N & G)].
+  - left. split; [reflexivity|].
+    apply (Z.mul_le_mono_pos_r _ _ den Hd). rewrite <- E.
+    assert (ovf32 * den * den' <= num * den') by (apply Z.mul_le_mono_nonneg_r; lia). lia.
+  - right. split; [exact R|]. split.
+    + apply (Z.mul_lt_mono_pos_r den); [exact Hd|]. rewrite <- E.
+      assert (num * den' < ovf32 * den * den') by (apply Z.mul_lt_mono_pos_r; lia). lia.
+    + intros b' Hb'. apply (nearer_even_frac 23 149 num den num' den'); auto.
+Qed.
+
+(* f64_to_f32_correct with the value written as fl_int 52 b0 / 2^1074 *)
+Corollary f64_to_f32_correct_int : forall b, 0 <= b < 2 ^ 64 ->
+  0 < b mod 2 ^ 63 < INF64 ->
+  exists r, f64_to_f32 b = (b / 2 ^ 63) * 2 ^ 31 + r /\
+            is_rne32 (fl_int 52 (b mod 2 ^ 63)) (2 ^ 1074) r.
+Proof.
+  intros b Hb Hf. destruct (f64_to_f32_correct b Hb) as (F & _). cbv zeta in F.
+  destruct (F ltac:(lia)) as (r & Hr & _ & _ & R). exists r. split; [exact Hr|].
+  apply (is_rne32_frac (dy_num (f64_value (b mod 2 ^ 63))) (dy_den (f64_value (b mod 2 ^ 63)))).
+  - apply dy_den_pos.
+  - apply pow2_pos; lia.
+  - apply dy_frac_int64.
+  - apply R. lia.
+Qed.
+
+(* ====================================================================== *)
+(* 7. Widening conversions are exact                                       *)
+(* ====================================================================== *)
+
+Lemma hibit_spec : forall fuel m, 0 < m < 2 ^ Z.of_nat fuel ->
+  0 <= hibit fuel m < Z.of_nat fuel /\ 2 ^ hibit fuel m <= m < 2 ^ (hibit fuel m + 1).
+Proof.
+  induction fuel as [|f IH]; intros m Hm.
+  - change (2 ^ Z.of_nat 0) with 1 in Hm. lia.
+  - cbn [hibit]. destruct (m <? 2) eqn:C.
+    + change (2 ^ 0) with 1. change (2 ^ (0 + 1)) with 2. lia.
+    + rewrite Nat2Z.inj_succ, Z.pow_succ_r in Hm by lia.
+      rewrite Z.shiftr_div_pow2 by lia. change (2 ^ 1) with 2.
+      assert (Hq : 0 < m / 2 < 2 ^ Z.of_nat f) by dlia.
+      destruct (IH _ Hq) as [I1 I2]. set (pp := hibit f (m / 2)) in *.
+      split; [lia|].
+      replace (1 + pp) with (pp + 1) by lia. rewrite !pow2_S by lia. rewrite pow2_S in I2 by lia. dlia.
+Qed.
+
+Theorem single_to_double_exact : forall x, 0 <= x < 2 ^ 32 ->
+  let s := x / 2 ^ 31 in
+  let x0 := x mod 2 ^ 31 in
+  (x0 < INF32 ->                                  (* finite: same value, same sign *)
+     exists d0, single_to_double x = s * 2 ^ 63 + d0 /\ 0 <= d0 < INF64 /\
+                fl_int 52 d0 = fl_int 23 x0 * 2 ^ (1074 - 149)) /\
+  (x0 = INF32 -> single_to_double x = s * 2 ^ 63 + INF64) /\
+  (INF32 < x0 ->                                  (* NaN: payload kept, quiet bit forced *)
+     single_to_double x = s * 2 ^ 63 + INF64 + (4194304 + x0 mod 4194304) * 2 ^ 29).
+Proof.
+  intros x Hx. cbv zeta. unfold single_to_double.
+  assert (L1 : forall a, Z.land a 1 = a mod 2).
+  { intros a. change 1 with (Z.ones 1). apply Z.land_ones. lia. }
+  rewrite !Z.shiftr_div_pow2 by lia. rewrite L1.
+  change 255 with (Z.ones 8). change 8388607 with (Z.ones 23).
+  rewrite !Z.land_ones by lia. rewrite (Z.shiftl_mul_pow2 _ 63) by lia. change (Z.ones 8) with 255.
+  change (2 ^ 32) with 4294967296 in Hx.
+  change (2 ^ 31) with 2147483648. change (2 ^ 23) with 8388608. change (2 ^ 8) with 256.
+  change (2 ^ 63) with 9223372036854775808.
+  unfold INF32, INF64. change (1074 - 149) with 925.
+  assert (Hs : (x / 2147483648) mod 2 = x / 2147483648) by dlia. rewrite Hs. clear Hs.
+  set (s := x / 2147483648). set (x0 := x mod 2147483648).
+  assert (Hs : 0 <= s <= 1) by (unfold s; dlia).
+  assert (Hx0 : 0 <= x0 < 2147483648) by (unfold x0; dlia).
+  assert (He : (x / 8388608) mod 256 = x0 / 8388608) by (unfold x0; dlia).
+  assert (Hm : x mod 8388608 = x0 mod 8388608) by (unfold x0; dlia).
+  rewrite He, Hm. clear He Hm.
+  set (e := x0 / 8388608). set (m := x0 mod 8388608).
+  assert (Hem : x0 = e * 8388608 + m /\ 0 <= m < 8388608 /\ 0 <= e < 256) by (unfold e, m; dlia).
+  assert (LOR : forall r, 0 <= r < 9223372036854775808 ->
+            Z.lor (s * 9223372036854775808) r = s * 9223372036854775808 + r).
+  { intros r Hr. change 9223372036854775808 with (2 ^ 63). apply lor_disjoint_add; lia. }
+  assert (P52 : 2 ^ 52 = 4503599627370496) by reflexivity.
+  assert (P23 : 2 ^ 23 = 8388608) by reflexivity.
+  assert (P29 : 2 ^ 29 = 536870912) by reflexivity.
+  split; [|split].
+  - intros Fin. destruct (e =? 255) eqn:E1; [lia|].
+    destruct (e =? 0) eqn:E0.
+    + destruct (m =? 0) eqn:M0.
+      * exists 0. split; [lia|]. split; [lia|]. assert (X0 : x0 = 0) by lia. rewrite X0. reflexivity.
+      * (* subnormal float32: renormalised *)
+        destruct (hibit_spec 24 m ltac:(change (2 ^ Z.of_nat 24) with 16777216; lia)) as [H1 H2].
+        set (pp := hibit 24 m) in *.
+        assert (Hpp : pp <= 22).
+        { destruct (Z_lt_le_dec 22 pp) as [C|C]; [|lia]. exfalso.
+          assert (2 ^ 23 <= 2 ^ pp) by (apply Z.pow_le_mono_r; lia). lia. }
+        rewrite !Z.shiftl_mul_pow2 by lia. rewrite Z.mul_1_l.
+        assert (Q : 2 ^ 52 = 2 ^ pp * 2 ^ (52 - pp)).
+        { rewrite <- Z.pow_add_r by lia. f_equal. lia. }
+        pose proof (pow2_pos pp ltac:(lia)) as Hpw. pose proof (pow2_pos (52 - pp) ltac:(lia)) as Hpw2.
+        assert (Rg : 0 <= (m - 2 ^ pp) * 2 ^ (52 - pp) < 2 ^ 52).
+        { rewrite pow2_S in H2 by lia. split; [apply Z.mul_nonneg_nonneg; lia|].
+          rewrite Q. apply Z.mul_lt_mono_pos_r; lia. }
+        rewrite lor_disjoint_add by lia.
+        exists ((pp - 149 + 1023) * 2 ^ 52 + (m - 2 ^ pp) * 2 ^ (52 - pp)).
+        split; [apply LOR; lia|]. split; [lia|].
+        replace ((pp - 149 + 1023) * 2 ^ 52 + (m - 2 ^ pp) * 2 ^ (52 - pp))
+          with (((pp + 874) - 1) * 2 ^ 52 + m * 2 ^ (52 - pp)) by lia.
+        assert (Rq : 2 ^ 52 <= m * 2 ^ (52 - pp) < 2 ^ (52 + 1)).
+        { rewrite (pow2_S 52) by lia. rewrite pow2_S in H2 by lia. rewrite Q. split.
+          - apply Z.mul_le_mono_nonneg_r; lia.
+          - replace (2 * (2 ^ pp * 2 ^ (52 - pp))) with ((2 * 2 ^ pp) * 2 ^ (52 - pp)) by lia.
+            apply Z.mul_lt_mono_pos_r; lia. }
+        rewrite fl_int_compose by lia.
+        assert (X0 : x0 = (1 - 1) * 2 ^ 23 + m) by lia. rewrite X0.
+        rewrite fl_int_compose by (change (2 ^ (23 + 1)) with 16777216; lia).
+        change (2 ^ (1 - 1)) with 1.
+        replace (2 ^ 925) with (2 ^ (52 - pp) * 2 ^ (pp + 874 - 1)).
+        2:{ rewrite <- Z.pow_add_r by lia. f_equal. lia. }
+        lia.
+    + (* normal float32 *)
+      rewrite !Z.shiftl_mul_pow2 by lia.
+      rewrite lor_disjoint_add by lia.
+      exists ((e - 127 + 1023) * 2 ^ 52 + m * 2 ^ 29).
+      split; [apply LOR; lia|]. split; [lia|].
+      replace ((e - 127 + 1023) * 2 ^ 52 + m * 2 ^ 29)
+        with (((e + 896) - 1) * 2 ^ 52 + (m + 8388608) * 2 ^ 29) by lia.
+      rewrite fl_int_compose by (change (2 ^ (52 + 1)) with 9007199254740992; lia).
+      assert (X0 : x0 = (e - 1) * 2 ^ 23 + (m + 8388608)) by lia. rewrite X0.
+      rewrite fl_int_compose by (change (2 ^ (23 + 1)) with 16777216; lia).
+      replace (e + 896 - 1) with ((e - 1) + 896) by lia. rewrite Z.pow_add_r by lia.
+      change 925 with (29 + 896). rewrite (Z.pow_add_r 2 29 896) by lia. lia.
+  - intros Inf. assert (e = 255 /\ m = 0) as [-> ->] by lia.
+    change (255 =? 0) with false. change (255 =? 255) with true. change (0 =? 0) with true. cbv iota.
+    apply LOR. lia.
+  - intros Nan. assert (e = 255 /\ m <> 0) as [-> Hm0] by lia.
+    change (255 =? 0) with false. change (255 =? 255) with true. cbv iota.
+    destruct (m =? 0) eqn:M; [lia|].
+    rewrite (Z.lor_comm m 4194304), lor_bit22 by lia. rewrite Z.shiftl_mul_pow2 by lia.
+    assert (Hmm : m mod 4194304 = x0 mod 4194304) by (unfold m; dlia).
+    assert (0 <= x0 mod 4194304 < 4194304) by dlia.
+    rewrite Hmm. set (l := x0 mod 4194304) in *.
+    change 9218868437227405312 with (2047 * 2 ^ 52) at 1.
+    rewrite lor_disjoint_add by lia.
+    rewrite LOR by lia. lia.
+Qed.
+Print Assumptions single_to_double_exact.
+
+(* ---------- binary16 (CBOR half floats): exhaustive check over all 65536 patterns ---------- *)
+
+Definition half_to_double (y : Z) : Z := single_to_double (half_to_single y).
+Definition INF16 : Z := 31744.                 (* 0x7C00 *)
+
+Fixpoint all_from (n : nat) (z : Z) (f : Z -> bool) : bool :=
+  match n with O => true | S k => f z && all_from k (z + 1) f end.
+
+Lemma all_from_spec : forall n z f, all_from n z f = true ->
+  forall y, z <= y < z + Z.of_nat n -> f y = true.
+Proof.
+  induction n as [|k IH]; intros z f H y Hy; [lia|].
+  cbn [all_from] in H. apply andb_prop in H. destruct H as [H1 H2].
+  destruct (Z.eq_dec y z) as [->|N]; [exact H1|]. apply (IH (z + 1)); [exact H2|lia].
+Qed.
+
+Definition f16_value (b : Z) : Z * Z := (fl_mant 10 b, Z.max (fl_e 10 b) 1 - 25).
+
+Lemma f16_value_int : forall b,
+  fl_int 10 b = fst (f16_value b) * 2 ^ (snd (f16_value b) + 24).
+Proof. intros b. unfold fl_int, f16_value. cbn [fst snd]. f_equal. f_equal. lia. Qed.
+
+(* (m1, e1) and (m2, e2) denote the same dyadic number, (m1, e1) being the finer one *)
+Definition dy_eqb (v1 v2 : Z * Z) : bool :=
+  (snd v1 <=? snd v2) && (fst v1 =? fst v2 * 2 ^ (snd v2 - snd v1)).
+
+Lemma dy_eqb_int : forall v1 v2 U, 0 <= snd v1 + U -> dy_eqb v1 v2 = true ->
+  fst v1 * 2 ^ (snd v1 + U) = fst v2 * 2 ^ (snd v2 + U).
+Proof.
+  intros [m1 e1] [m2 e2] U HU H. unfold dy_eqb in H. cbn [fst snd] in *.
+  apply andb_prop in H. destruct H as [H1 H2].
+  assert (E : m1 = m2 * 2 ^ (e2 - e1)) by lia. rewrite E.
+  rewrite <- Z.mul_assoc, <- Z.pow_add_r by lia. f_equal. f_equal. lia.
+Qed.
+
+Definition half_check (y : Z) : bool :=
+  let s := y / 32768 in
+  let y0 := y mod 32768 in
+  let f0 := half_to_single y - s * 2147483648 in
+  let d0 := half_to_double y - s * 9223372036854775808 in
+  if y0 <? 31744 then
+    (0 <=? f0) && (f0 <? INF32) && dy_eqb (f32_value f0) (f16_value y0) &&
+    (0 <=? d0) && (d0 <? INF64) && dy_eqb (f64_value d0) (f16_value y0)
+  else if y0 =? 31744 then (f0 =? INF32) && (d0 =? INF64)
+  else (f0 =? INF32 + (y0 mod 1024) * 8192) &&
+       (d0 =? INF64 + (512 + y0 mod 512) * 4398046511104).
+
+Lemma half_check_all : all_from (Z.to_nat 65536) 0 half_check = true.
+Proof. vm_cast_no_check (eq_refl true). Qed.
+
+Theorem half_to_double_exact : forall y, 0 <= y < 2 ^ 16 ->
+  let s := y / 2 ^ 15 in
+  let y0 := y mod 2 ^ 15 in
+  (y0 < INF16 ->                                  (* finite: same value, same sign *)
+     exists d0, half_to_double y = s * 2 ^ 63 + d0 /\ 0 <= d0 < INF64 /\
+                fl_int 52 d0 = fl_int 10 y0 * 2 ^ (1074 - 24)) /\
+  (y0 = INF16 -> half_to_double y = s * 2 ^ 63 + INF64) /\
+  (INF16 < y0 ->                                  (* NaN: payload kept, quiet bit forced *)
+     half_to_double y = s * 2 ^ 63 + INF64 + (512 + y0 mod 512) * 2 ^ 42).
+Proof.
+  intros y Hy. cbv zeta.
+  pose proof (all_from_spec _ _ _ half_check_all y ltac:(rewrite Z2Nat.id; [exact Hy|lia])) as C.
+  unfold half_check in C. cbv zeta in C.
+  change (2 ^ 15) with 32768. change (2 ^ 63) with 9223372036854775808.
+  change (2 ^ 42) with 4398046511104. unfold INF16.
+  set (s := y / 32768) in *. set (y0 := y mod 32768) in *.
+  set (d := half_to_double y) in *. set (f := half_to_single y) in *.
+  destruct (y0 <? 31744) eqn:E1; [|destruct (y0 =? 31744) eqn:E2].
+  - repeat (apply andb_prop in C; destruct C as [C ?]).
+    split; [|split]; [|lia|lia]. intros _.
+    exists (d - s * 9223372036854775808). split; [lia|]. split; [lia|].
+    rewrite f64_value_int, f16_value_int. change (1074 - 24) with 1050.
+    rewrite <- Z.mul_assoc, <- Z.pow_add_r.
+    + replace (snd (f16_value y0) + 24 + 1050) with (snd (f16_value y0) + 1074) by lia.
+      apply dy_eqb_int; [|assumption]. unfold f64_value. cbn [snd]. lia.
+    + unfold f16_value. cbn [snd]. lia.
+    + lia.
+  - apply andb_prop in C. destruct C as [_ C]. split; [|split]; [lia| |lia]. intros _. lia.
+  - apply andb_prop in C. destruct C as [_ C]. split; [|split]; [lia|lia|]. intros _. lia.
+Qed.
+Print Assumptions half_to_double_exact.
+
+Theorem half_to_single_exact : forall y, 0 <= y < 2 ^ 16 ->
+  let s := y / 2 ^ 15 in
+  let y0 := y mod 2 ^ 15 in
+  (y0 < INF16 ->
+     exists f0, half_to_single y = s * 2 ^ 31 + f0 /\ 0 <= f0 < INF32 /\
+                fl_int 23 f0 = fl_int 10 y0 * 2 ^ (149 - 24)) /\
+  (y0 = INF16 -> half_to_single y = s * 2 ^ 31 + INF32) /\
+  (INF16 < y0 -> half_to_single y = s * 2 ^ 31 + INF32 + (y0 mod 1024) * 2 ^ 13).
+Proof.
+  intros y Hy. cbv zeta.
+  pose proof (all_from_spec _ _ _ half_check_all y ltac:(rewrite Z2Nat.id; [exact Hy|lia])) as C.
+  unfold half_check in C. cbv zeta in C.
+  change (2 ^ 15) with 32768. change (2 ^ 31) with 2147483648.
+  change (2 ^ 13) with 8192. unfold INF16.
+  set (s := y / 32768) in *. set (y0 := y mod 32768) in *.
+  set (d := half_to_double y) in *. set (f := half_to_single y) in *.
+  destruct (y0 <? 31744) eqn:E1; [|destruct (y0 =? 31744) eqn:E2].
+  - repeat (apply andb_prop in C; destruct C as [C ?]).
+    split; [|split]; [|lia|lia]. intros _.
+    exists (f - s * 2147483648). split; [lia|]. split; [lia|].
+    rewrite f32_value_int, f16_value_int. change (149 - 24) with 125.
+    rewrite <- Z.mul_assoc, <- Z.pow_add_r.
+    + replace (snd (f16_value y0) + 24 + 125) with (snd (f16_value y0) + 149) by lia.
+      apply dy_eqb_int; [|assumption]. unfold f32_value. cbn [snd]. lia.
+    + unfold f16_value. cbn [snd]. lia.
+    + lia.
+  - apply andb_prop in C. destruct C as [C _]. split; [|split]; [lia| |lia]. intros _. lia.
+  - apply andb_prop in C. destruct C as [C _]. split; [|split]; [lia|lia|]. intros _. lia.
+Qed.
+
+(* ====================================================================== *)
+(* 8. float32 round trip through float64: round32                          *)
+(* ====================================================================== *)
+
+Lemma max_f32_lt_ovf : fl_int 23 (INF32 - 1) < ovf32 * 2 ^ 149.
+Proof. vm_compute. reflexivity. Qed.
+
+(* narrowing undoes widening, except that a signalling NaN comes back quiet *)
+Theorem f64_to_f32_single_to_double : forall x, 0 <= x < 2 ^ 32 ->
+  let x0 := x mod 2 ^ 31 in
+  (x0 <= INF32 \/ INF32 + 4194304 <= x0 -> f64_to_f32 (single_to_double x) = x) /\
+  (INF32 < x0 < INF32 + 4194304 -> f64_to_f32 (single_to_double x) = x + 4194304).
+Proof.
+  intros x Hx. cbv zeta.
+  destruct (single_to_double_exact x Hx) as (F & I & N). cbv zeta in F, I, N.
+  change (2 ^ 32) with 4294967296 in Hx.
+  change (2 ^ 31) with 2147483648 in *. change (2 ^ 63) with 9223372036854775808 in *.
+  change (2 ^ 29) with 536870912 in *. change (1074 - 149) with 925 in *.
+  unfold INF32, INF64 in F, I, N |- *.
+  assert (Hs : 0 <= x / 2147483648 <= 1) by dlia.
+  assert (Hx0 : 0 <= x mod 2147483648 < 2147483648) by dlia.
+  assert (Hxx : x = x / 2147483648 * 2147483648 + x mod 2147483648) by dlia.
+  set (s := x / 2147483648) in *. set (x0 := x mod 2147483648) in *.
+  assert (DEC : forall d0, 0 <= d0 < 9223372036854775808 ->
+            0 <= s * 9223372036854775808 + d0 < 2 ^ 64 /\
+            (s * 9223372036854775808 + d0) / 2 ^ 63 = s /\
+            (s * 9223372036854775808 + d0) mod 2 ^ 63 = d0).
+  { intros d0 Hd0. change (2 ^ 64) with 18446744073709551616.
+    change (2 ^ 63) with 9223372036854775808. dlia. }
+  destruct (Z.lt_trichotomy x0 2139095040) as [C|[C|C]].
+  - (* finite *)
+    split; [intros _|lia].
+    destruct (F C) as (d0 & Hd & Hr & Hv). rewrite Hd.
+    destruct (DEC d0 ltac:(lia)) as (D1 & D2 & D3).
+    destruct (f64_to_f32_correct _ D1) as (F' & _). cbv zeta in F'. rewrite D2, D3 in F'.
+    destruct (F' ltac:(unfold INF64; lia)) as (r & -> & Hrr & Hz & Hp).
+    change (2 ^ 31) with 2147483648. rewrite Hxx. f_equal.
+    destruct (Z.eq_dec x0 0) as [Z0|NZ].
+    + rewrite Z0 in *. change (fl_int 23 0) with 0 in Hv. rewrite Z.mul_0_l in Hv.
+      apply Hz. apply (fl_int_inj 52); try lia. exact Hv.
+    + pose proof (fl_int_mono 23 0 x0 ltac:(lia) ltac:(lia) ltac:(lia)) as P0.
+      change (fl_int 23 0) with 0 in P0.
+      pose proof (pow2_pos 925 ltac:(lia)) as HK.
+      assert (P1 : 0 < fl_int 52 d0) by (rewrite Hv; apply Z.mul_pos_pos; lia).
+      assert (Pd : 0 < d0).
+      { destruct (Z.eq_dec d0 0) as [->|]; [|lia]. change (fl_int 52 0) with 0 in P1. lia. }
+      specialize (Hp Pd).
+      pose proof (dy_frac_int64 d0) as Fr. pose proof (dy_den_pos (f64_value d0)) as Dp.
+      set (num := dy_num (f64_value d0)) in *. set (den := dy_den (f64_value d0)) in *.
+      assert (Ex : num * 2 ^ 149 = fl_int 23 x0 * den).
+      { apply (Z.mul_cancel_r _ _ (2 ^ 925)); [lia|].
+        replace (num * 2 ^ 149 * 2 ^ 925) with (num * 2 ^ 1074).
+        2:{ change 1074 with (149 + 925). rewrite (Z.pow_add_r 2 149 925) by lia. lia. }
+        rewrite Fr, Hv. lia. }
+      apply (is_rne32_unique num den); [exact Dp|exact Hp|].
+      right. split; [unfold INF32; lia|]. split.
+      * pose proof max_f32_lt_ovf as Mx.
+        assert (fl_int 23 x0 <= fl_int 23 (INF32 - 1)).
+        { destruct (Z.eq_dec x0 (INF32 - 1)) as [Q|Q]; [rewrite Q; lia|].
+          pose proof (fl_int_mono 23 x0 (INF32 - 1) ltac:(lia) ltac:(lia) ltac:(unfold INF32 in *; lia)). lia. }
+        pose proof (pow2_pos 149 ltac:(lia)) as HK2.
+        apply (Z.mul_lt_mono_pos_r (2 ^ 149)); [lia|]. rewrite Ex.
+        assert (fl_int 23 x0 * den < ovf32 * 2 ^ 149 * den) by (apply Z.mul_lt_mono_pos_r; lia). lia.
+      * intros b' Hb'. apply nearest_exact; [lia|lia|lia|exact Ex|lia].
+  - (* infinity *)
+    split; [intros _|lia]. rewrite (I C).
+    destruct (DEC 9218868437227405312 ltac:(lia)) as (D1 & D2 & D3).
+    destruct (f64_to_f32_correct _ D1) as (_ & I' & _). cbv zeta in I'. rewrite D2, D3 in I'.
+    rewrite (I' eq_refl). change (2 ^ 31) with 2147483648. unfold INF32. lia.
+  - (* NaN *)
+    rewrite (N C).
+    assert (Hl : 0 <= x0 mod 4194304 < 4194304) by dlia.
+    assert (Hl2 : (x0 - 2139095040) mod 4194304 = x0 mod 4194304) by dlia.
+    set (l := x0 mod 4194304) in *.
+    replace (s * 9223372036854775808 + 9218868437227405312 + (4194304 + l) * 536870912)
+      with (s * 9223372036854775808 + (9218868437227405312 + (4194304 + l) * 536870912)) by lia.
+    destruct (DEC (9218868437227405312 + (4194304 + l) * 536870912) ltac:(lia)) as (D1 & D2 & D3).
+    destruct (f64_to_f32_correct _ D1) as (_ & _ & N'). cbv zeta in N'. rewrite D2, D3 in N'.
+    rewrite (N' ltac:(unfold INF64; lia)).
+    change (2 ^ 31) with 2147483648. change (2 ^ 52) with 4503599627370496.
+    change (2 ^ 29) with 536870912. unfold INF32.
+    assert (Pay : ((9218868437227405312 + (4194304 + l) * 536870912) mod 4503599627370496 / 536870912)
+                    mod 4194304 = l) by dlia.
+    rewrite Pay. split; intros Q; dlia.
+Qed.
+Print Assumptions f64_to_f32_single_to_double.
+
+(* the signalling-NaN corner is real: 0x7F800001 comes back as 0x7FC00001 *)
+Example f64_to_f32_single_to_double_snan_refuted :
+  f64_to_f32 (single_to_double 2139095041) = 2143289345.
+Proof. vm_compute. reflexivity. Qed.
+
+Lemma single_to_double_quiet : forall x, 0 <= x < 2 ^ 32 ->
+  INF32 < x mod 2 ^ 31 < INF32 + 4194304 ->
+  single_to_double (x + 4194304) = single_to_double x.
+Proof.
+  intros x Hx Hs.
+  destruct (single_to_double_exact x Hx) as (_ & _ & N). cbv zeta in N.
+  change (2 ^ 32) with 4294967296 in *. change (2 ^ 31) with 2147483648 in *. unfold INF32 in *.
+  assert (Hx' : 0 <= x + 4194304 < 2 ^ 32) by (change (2 ^ 32) with 4294967296; dlia).
+  destruct (single_to_double_exact (x + 4194304) Hx') as (_ & _ & N'). cbv zeta in N'.
+  change (2 ^ 31) with 2147483648 in *. unfold INF32 in *.
+  rewrite N by lia. rewrite N' by dlia. f_equal; [f_equal; f_equal; dlia|f_equal; f_equal; dlia].
+Qed.
+
+(* a widened float32 is a fixed point of round32 -- for every pattern, signalling NaNs included *)
+Theorem round32_single_to_double : forall x, 0 <= x < 2 ^ 32 ->
+  round32 (single_to_double x) = single_to_double x.
+Proof.
+  intros x Hx. unfold round32.
+  destruct (f64_to_f32_single_to_double x Hx) as [A B]. cbv zeta in A, B.
+  destruct (Z_le_gt_dec (x mod 2 ^ 31) INF32) as [C|C]; [rewrite A by lia; reflexivity|].
+  destruct (Z_le_gt_dec (INF32 + 4194304) (x mod 2 ^ 31)) as [C'|C']; [rewrite A by lia; reflexivity|].
+  rewrite B by lia. apply single_to_double_quiet; [exact Hx|lia].
+Qed.
+Print Assumptions round32_single_to_double.
+
+Theorem round32_idempotent : forall b, 0 <= b < 2 ^ 64 -> round32 (round32 b) = round32 b.
+Proof.
+  intros b Hb. unfold round32 at 2 3. apply round32_single_to_double.
+  apply f64_to_f32_range. exact Hb.
+Qed.
+Print Assumptions round32_idempotent.
+
+(* round32 is Go's float64(float32(x)): the nearest float32, widened exactly *)
+Example ex_round32_0_1 : round32 4591870180066957722 = 4591870180174331904.   (* 0.1 -> 0x3FB99999A0000000 *)
+Proof. vm_compute. reflexivity. Qed.
+
+(* float32 narrowing: worked examples (cross-checked against C / Go float32(x)) *)
+Example ex_f32_0_1 : nearest_f32_pos 1 10 = 1036831949.                       (* 0.1f = 0x3DCCCCCD *)
+Proof. vm_compute. reflexivity. Qed.
+Example ex_f32_tie_even : f64_to_f32 4607182419068452864 = 1065353216.        (* 1 + 2^-24 -> 1.0f *)
+Proof. vm_compute. reflexivity. Qed.
+Example ex_f32_above_tie : f64_to_f32 4607182419068452865 = 1065353217.       (* 1 + 2^-24 + 2^-52 -> next float *)
+Proof. vm_compute. reflexivity. Qed.
+Example ex_f32_overflow : f64_to_f32 5183643170835005440 = 2139095040.        (* 2^128 - 2^103 -> +Inf *)
+Proof. vm_compute. reflexivity. Qed.
+Example ex_f32_max : f64_to_f32 5183643170835005439 = 2139095039.             (* just below -> MaxFloat32 *)
+Proof. vm_compute. reflexivity. Qed.
+Example ex_f32_neg_max : f64_to_f32 (5183643170835005439 + 2 ^ 63) = 2139095039 + 2 ^ 31.
+Proof. vm_compute. reflexivity. Qed.
+Example ex_f32_half_min : f64_to_f32 3931642474694443008 = 0.                 (* 2^-150: tie -> 0 *)
+Proof. vm_compute. reflexivity. Qed.
+Example ex_f32_above_half_min : f64_to_f32 3931642474694443009 = 1.           (* -> smallest subnormal *)
+Proof. vm_compute. reflexivity. Qed.
+Example ex_f32_snan : f64_to_f32 9218868437227405313 = 2143289344.            (* sNaN, low payload -> 0x7FC00000 *)
+Proof. vm_compute. reflexivity. Qed.
+Example ex_half_min : half_to_double 1 = 4499096027743125504.                 (* 2^-24 *)
+Proof. vm_compute. reflexivity. Qed.
+Example ex_single_min : single_to_double 1 = 3936146074321813504.             (* 2^-149 *)
+Proof. vm_compute. reflexivity. Qed.
+
+(* the added/assumed hypotheses are satisfiable by non-trivial inputs *)
+Example ex_nd_precondition : 10 ^ (17 - 1) <= 22250738585072011 < 10 ^ 17.
+Proof. vm_compute. split; [discriminate|reflexivity]. Qed.
+Example ex_int_range : Z.abs (-9223372036854775808) < ovf64.
+Proof. vm_compute. reflexivity. Qed.
+
+(* both outcomes of nearest_pos in one statement: FRange stands for +Inf *)
+Corollary nearest_pos_correct_rne : forall m e10 nd, 0 < m -> 10 ^ (nd - 1) <= m < 10 ^ nd ->
+  is_rne64 (dec_num m e10) (dec_den e10)
+           (match nearest_pos m e10 nd with FBits b => b | FRange => INF64 end).
+Proof.
+  intros m e10 nd Hm Hnd. pose proof (nearest_pos_correct m e10 nd Hm Hnd) as H.
+  destruct (nearest_pos m e10 nd) as [b|]; [apply H|]. left. split; [reflexivity|exact H].
+Qed.
+
+Print Assumptions nearest_gen_global.
+Print Assumptions nearest_pos_correct_rne.
+Print Assumptions is_rne64_unique.
+Print Assumptions is_rne32_unique.
+Print Assumptions f64_value_mono.
+Print Assumptions int_to_f64_correct_64.
+Print Assumptions f64_to_f32_correct_int.
+Print Assumptions f64_to_f32_range.
+Print Assumptions half_to_single_exact.
